@@ -252,6 +252,14 @@ def c_assoc(case, ctx):
 def c_frames(case, ctx):
     fsr = lib()["fsr"]
     r, x = case["r"], case["x"]
+    if case.get("xnear") is not None:
+        # x is a small step away from the reference frame itself (a target next to where the tool already is, both
+        # far from the origin): coordinates differ by 1e-7..1e-1, the rotation by nothing or next to nothing
+        mag, d, dw = case["xnear"]
+        x = np.asarray(r, dtype=float).copy()
+        x[:3] = x[:3] + float(mag) * np.asarray(d, dtype=float)
+        x[3:] = x[3:] + np.asarray(dw, dtype=float)
+        ctx.label("x next to the reference frame")
     Rm, X = O.pose_from_taa(r), O.pose_from_taa(x)
     G_ = Rm @ X
     L_ = O.inv(Rm) @ X
@@ -265,7 +273,11 @@ def c_frames(case, ctx):
     g = sut(fsr.localToGlobal, tr, tx)
     _close(_gtm(g, "localToGlobal(ref, x)"), G_, s, "localToGlobal(ref, x) vs Ref X")
     l = sut(fsr.globalToLocal, tr, tx)
-    _close(_gtm(l, "globalToLocal(ref, x)"), L_, s, "globalToLocal(ref, x) vs inv(Ref) X")
+    # inv(Ref) X = [R^T Rx, R^T (p_x - p_ref)]: the only length a rotation error can act on here is |p_x - p_ref|, so
+    # that - not the distance of the frames from the origin - scales the translation tolerance (the statement's own
+    # tolerance is 5e-6 absolute; two frames a millimetre apart at |p| = 1e3 are not "equal")
+    s_l = max(1.0, float(np.linalg.norm(X[:3, 3] - Rm[:3, 3])))
+    _close(_gtm(l, "globalToLocal(ref, x)"), L_, s_l, "globalToLocal(ref, x) vs inv(Ref) X")
     _close(_gtm(sut(fsr.globalToLocal, tr, g), "globalToLocal(ref, localToGlobal(ref, x))"), X, s,
            "globalToLocal(ref, localToGlobal(ref, x)) vs x")
     _close(_gtm(sut(fsr.localToGlobal, tr, l), "localToGlobal(ref, globalToLocal(ref, x))"), X, s,
@@ -361,6 +373,12 @@ def c_ctor_forms(case, ctx):
         ("tm(4x4)", lambda: sut(tm, np.ascontiguousarray(T).copy()), T),
         ("tm(tm)", lambda: sut(tm, base), T),
         ("tm(array([tm]))", lambda: sut(tm, one), T),
+        # the roll-pitch-yaw flag says how an ANGLE TRIPLE is to be read; the forms that carry no angle triple mean the
+        # same pose with it (the repository's own tests hand True to the 7-element and 4x4 forms and expect that)
+        ("tm(list7, rpy=True)", lambda: sut(tm, [float(x) for x in v7], True), T),
+        ("tm(4x4, rpy=True)", lambda: sut(tm, np.ascontiguousarray(T).copy(), True), T),
+        ("tm(tm, rpy=True)", lambda: sut(tm, base, True), T),
+        ("tm(array([tm]), rpy=True)", lambda: sut(tm, one, rpy=True), T),
     ]
     mats = []
     for name, make, want in forms:
@@ -494,7 +512,12 @@ CLAUSES = [
                how=st.sampled_from(["setQuat", "sTM", "sTAA", "setitem"])), 1500, 48000),
     Clause("composition_associative", c_assoc,
            _fd(a=_poses(), b=_poses(), c=_poses(), fa=_FORM, fb=_FORM, fc=_FORM), 1500, 48000),
-    Clause("local_global_mutual_inverse", c_frames, _fd(r=_poses(), x=_poses(), fr=_FORM, fx=_FORM), 1500, 48000),
+    Clause("local_global_mutual_inverse", c_frames, _fd(r=_poses(), x=_poses(), fr=_FORM, fx=_FORM,
+               xnear=st.one_of(st.none(), st.none(), st.none(),
+                               st.tuples(G.log_uniform(1e-7, 1e-1), st.lists(_F11, min_size=3, max_size=3),
+                                         st.one_of(st.just([0.0, 0.0, 0.0]),
+                                                   st.lists(G.signed_log_uniform(1e-9, 1e-5), min_size=3, max_size=3))))),
+           1500, 48000),
     Clause("constructor_forms_agree", c_ctor_forms, _ctor_cases(), 1500, 48000),
     Clause("nested_pair_form", c_nested_pair, _ctor_cases(), 1000, 32000),
     Clause("quaternion_get_set_identity", c_quat_roundtrip, _fd(a=_poses(), fa=_FORM), 1500, 48000),
